@@ -66,6 +66,16 @@ pub const BUILTINFNS: &[BuiltinFunction] = &[
     BuiltinFunction::new("pcap_write", builtin_pcap_write),
 ];
 
+// print!() and eprint!() panic when the stream cannot be written (e.g. a
+// full device); these helpers report the failure instead.
+fn write_stdout(s: &str) -> io::Result<()> {
+    io::stdout().write_all(s.as_bytes())
+}
+
+fn write_stderr(s: &str) -> io::Result<()> {
+    io::stderr().write_all(s.as_bytes())
+}
+
 fn builtin_len(args: Vec<Rc<Object>>) -> Result<Rc<Object>, String> {
     if args.len() != 1 {
         return Err(format!("takes one argument. got={}", args.len()));
@@ -80,7 +90,7 @@ fn builtin_len(args: Vec<Rc<Object>>) -> Result<Rc<Object>, String> {
 
 fn builtin_puts(args: Vec<Rc<Object>>) -> Result<Rc<Object>, String> {
     if args.is_empty() {
-        println!();
+        write_stdout("\n").map_err(|e| e.to_string())?;
         return Ok(Rc::new(Object::Null));
     }
 
@@ -88,14 +98,14 @@ fn builtin_puts(args: Vec<Rc<Object>>) -> Result<Rc<Object>, String> {
         match obj.as_ref() {
             Object::Str(t) => {
                 // Avoid quotes around string
-                print!("{}", t);
+                write_stdout(t).map_err(|e| e.to_string())?;
             }
             o => {
-                print!("{}", o);
+                write_stdout(&o.to_string()).map_err(|e| e.to_string())?;
             }
         }
     }
-    println!();
+    write_stdout("\n").map_err(|e| e.to_string())?;
     // puts returns Null
     Ok(Rc::new(Object::Null))
 }
@@ -456,7 +466,7 @@ fn builtin_print(args: Vec<Rc<Object>>) -> Result<Rc<Object>, String> {
     let collector = format_buf(args)?;
     // Print the collected formatted output
     for s in &collector.0 {
-        print!("{}", s);
+        write_stdout(s).map_err(|e| e.to_string())?;
         len += s.len() as i64;
     }
     Ok(Rc::new(Object::Integer(len)))
@@ -470,11 +480,11 @@ fn builtin_println(args: Vec<Rc<Object>>) -> Result<Rc<Object>, String> {
     let collector = format_buf(args)?;
     // Print the collected formatted output
     for s in &collector.0 {
-        print!("{}", s);
+        write_stdout(s).map_err(|e| e.to_string())?;
         len += s.len() as i64;
     }
     // Newline at the end
-    println!();
+    write_stdout("\n").map_err(|e| e.to_string())?;
     len += 1;
     Ok(Rc::new(Object::Integer(len)))
 }
@@ -487,7 +497,7 @@ fn builtin_eprint(args: Vec<Rc<Object>>) -> Result<Rc<Object>, String> {
     let collector = format_buf(args)?;
     // Print the collected formatted output
     for s in &collector.0 {
-        eprint!("{}", s);
+        write_stderr(s).map_err(|e| e.to_string())?;
         len += s.len() as i64;
     }
     Ok(Rc::new(Object::Integer(len)))
@@ -501,11 +511,11 @@ fn builtin_eprintln(args: Vec<Rc<Object>>) -> Result<Rc<Object>, String> {
     let collector = format_buf(args)?;
     // Print the collected formatted output
     for s in &collector.0 {
-        eprint!("{}", s);
+        write_stderr(s).map_err(|e| e.to_string())?;
         len += s.len() as i64;
     }
     // Newline at the end
-    eprintln!();
+    write_stderr("\n").map_err(|e| e.to_string())?;
     len += 1;
     Ok(Rc::new(Object::Integer(len)))
 }
@@ -922,24 +932,30 @@ fn builtin_write(args: Vec<Rc<Object>>) -> Result<Rc<Object>, String> {
                 }
                 FileHandle::Stdin => Err("cannot write to stdin".to_string()),
                 FileHandle::Stdout => match args[1].as_ref() {
-                    Object::Byte(b) => {
-                        print!("{}", *b as char);
-                        Ok(Rc::new(Object::Integer(1)))
-                    }
+                    Object::Byte(b) => match write_stdout(&(*b as char).to_string()) {
+                        Ok(_) => Ok(Rc::new(Object::Integer(1))),
+                        Err(e) => Ok(Rc::new(Object::Err(ErrorObj::IO(e)))),
+                    },
                     Object::Arr(arr) => {
+                        let mut text = String::new();
                         for obj in arr.elements.borrow().iter() {
                             if let Object::Byte(b) = obj.as_ref() {
-                                print!("{}", *b as char);
+                                text.push(*b as char);
                             } else {
                                 return Err(String::from("array should contain only bytes"));
                             }
                         }
-                        Ok(Rc::new(Object::Integer(arr.elements.borrow().len() as i64)))
+                        match write_stdout(&text) {
+                            Ok(_) => {
+                                Ok(Rc::new(Object::Integer(arr.elements.borrow().len() as i64)))
+                            }
+                            Err(e) => Ok(Rc::new(Object::Err(ErrorObj::IO(e)))),
+                        }
                     }
-                    Object::Str(s) => {
-                        print!("{}", s);
-                        Ok(Rc::new(Object::Integer(s.len() as i64)))
-                    }
+                    Object::Str(s) => match write_stdout(s) {
+                        Ok(_) => Ok(Rc::new(Object::Integer(s.len() as i64))),
+                        Err(e) => Ok(Rc::new(Object::Err(ErrorObj::IO(e)))),
+                    },
                     Object::Packet(s) => {
                         let bytes: Vec<u8> = s.as_ref().into();
                         match io::stdout().write_all(&bytes) {
@@ -952,24 +968,30 @@ fn builtin_write(args: Vec<Rc<Object>>) -> Result<Rc<Object>, String> {
                     )),
                 },
                 FileHandle::Stderr => match args[1].as_ref() {
-                    Object::Byte(b) => {
-                        eprint!("{}", *b as char);
-                        Ok(Rc::new(Object::Integer(1)))
-                    }
+                    Object::Byte(b) => match write_stderr(&(*b as char).to_string()) {
+                        Ok(_) => Ok(Rc::new(Object::Integer(1))),
+                        Err(e) => Ok(Rc::new(Object::Err(ErrorObj::IO(e)))),
+                    },
                     Object::Arr(arr) => {
+                        let mut text = String::new();
                         for obj in arr.elements.borrow().iter() {
                             if let Object::Byte(b) = obj.as_ref() {
-                                eprint!("{}", *b as char);
+                                text.push(*b as char);
                             } else {
                                 return Err(String::from("array should contain only bytes"));
                             }
                         }
-                        Ok(Rc::new(Object::Integer(arr.elements.borrow().len() as i64)))
+                        match write_stderr(&text) {
+                            Ok(_) => {
+                                Ok(Rc::new(Object::Integer(arr.elements.borrow().len() as i64)))
+                            }
+                            Err(e) => Ok(Rc::new(Object::Err(ErrorObj::IO(e)))),
+                        }
                     }
-                    Object::Str(s) => {
-                        eprint!("{}", s);
-                        Ok(Rc::new(Object::Integer(s.len() as i64)))
-                    }
+                    Object::Str(s) => match write_stderr(s) {
+                        Ok(_) => Ok(Rc::new(Object::Integer(s.len() as i64))),
+                        Err(e) => Ok(Rc::new(Object::Err(ErrorObj::IO(e)))),
+                    },
                     Object::Packet(s) => {
                         let bytes: Vec<u8> = s.as_ref().into();
                         match io::stderr().write_all(&bytes) {
@@ -1033,8 +1055,8 @@ fn builtin_input(args: Vec<Rc<Object>>) -> Result<Rc<Object>, String> {
     // display the prompt only if args has atleast one element
     if args.len() == 1 {
         if let Object::Str(s) = args[0].as_ref() {
-            print!("{}", s);
-            io::stdout().flush().expect("Failed to flush stdout");
+            write_stdout(s).map_err(|e| e.to_string())?;
+            io::stdout().flush().map_err(|e| e.to_string())?;
         } else {
             return Err(String::from("argument should be a string"));
         }
